@@ -23,12 +23,18 @@ type caseSpec struct {
 	// Launcher: "" | "removed before the stop": the command is started through a link which is deleted once the
 	// tree is ready (a launcher script cleaned up, a tool replaced by an upgrade): the running processes do not care.
 	Launcher string `json:"launcher,omitempty"`
+	// SlowStartLogMs > 0: the caller's log sink takes that long to record "Started process [pid]"; the stop is
+	// requested DelayMs after the sink has been handed that announcement (anchor "announced"), Start() still running.
+	SlowStartLogMs int `json:"slow_start_log_ms,omitempty"`
 }
 
 func (c caseSpec) canonical() string {
 	s := fmt.Sprintf("start=%s stop=%s class=%s shape=%s at=%s+%dms", c.Start, c.Stop, c.ShapeClass, c.ShapeText, c.Anchor, c.DelayMs)
 	if c.Launcher != "" {
 		s += " launcher=" + c.Launcher
+	}
+	if c.SlowStartLogMs > 0 {
+		s += fmt.Sprintf(" slow-start-log=%dms", c.SlowStartLogMs)
 	}
 	return s
 }
@@ -271,6 +277,32 @@ func genCases(r *vrun.Run) []caseSpec {
 		}
 		out = append(out, c)
 	}
+	// the stop arrives while Start() is still recording its announcement through a slow sink
+	for i, stop := range []string{"Stop", "Cancel", "context-cancel"} {
+		rng := r.Rand("c05-slow-start", i)
+		class := []string{"fan", "chain", "background child holding pipes", "TERM-ignoring leaves"}[(i+int(r.Seed))%4]
+		c := caseSpec{Index: len(out), Start: "Start", Stop: stop, ShapeClass: class, Anchor: "announced", DelayMs: rng.IntN(200), SlowStartLogMs: 400}
+		c.Shape = buildShape(class, rng, "Start")
+		c.ShapeText = c.Shape.String()
+		c.Pipes = "released by descendants"
+		if holdsPipes(c.Shape, true) {
+			c.Pipes = "held by descendant"
+		}
+		out = append(out, c)
+	}
+	// a longer history: Start, Restart, and only then the end of the context
+	for i, stop := range []string{"Restart+context-cancel", "Restart+Cancel"} {
+		rng := r.Rand("c05-restart-then", i)
+		class := []string{"fan", "chain", "single process"}[(i+int(r.Seed))%3]
+		c := caseSpec{Index: len(out), Start: "Start", Stop: stop, ShapeClass: class, Anchor: "ready", DelayMs: rng.IntN(100)}
+		c.Shape = buildShape(class, rng, "Start")
+		c.ShapeText = c.Shape.String()
+		c.Pipes = "released by descendants"
+		if holdsPipes(c.Shape, true) {
+			c.Pipes = "held by descendant"
+		}
+		out = append(out, c)
+	}
 	if r.Quick() {
 		// every start x stop combination on every shape class; the instants rotate so that each
 		// combination and each class meets every instant class
@@ -290,6 +322,12 @@ func genCases(r *vrun.Run) []caseSpec {
 		add(cb, class, rng.IntN(7), rng)
 		if c := &out[len(out)-1]; c.Anchor == "ready" && c.Stop != "Restart" && c.Start != "Supervisor" && rng.IntN(5) == 0 {
 			c.Launcher = "removed before the stop"
+		}
+		if c := &out[len(out)-1]; c.Start == "Start" && c.Launcher == "" && (c.Stop == "Stop" || c.Stop == "Cancel" || c.Stop == "context-cancel") && rng.IntN(6) == 0 {
+			c.Anchor, c.DelayMs, c.SlowStartLogMs = "announced", rng.IntN(250), 300+rng.IntN(300)
+		}
+		if c := &out[len(out)-1]; c.Start == "Start" && c.Launcher == "" && c.SlowStartLogMs == 0 && c.Anchor == "ready" && c.Stop == "context-cancel" && rng.IntN(4) == 0 {
+			c.Stop = []string{"Restart+context-cancel", "Restart+Cancel"}[rng.IntN(2)]
 		}
 	}
 	return out
